@@ -40,6 +40,8 @@ type hty struct {
 	shape    *hshape // a translated function held in a variable (method expression)
 	st       *hstruct
 	owned    bool // struct: a *V to a fresh value struct nobody else refers to, held by value
+	raw      string   // func: its Coq type written out (the function itself at smaller fuel: self_)
+	rawTps   []string // ... and the type variables it mentions
 	untyped  bool // int: an untyped constant
 }
 
@@ -100,6 +102,9 @@ func (t *hty) coq() string {
 
 // funcCoq: the Coq type of a function value; heapT is the type of the heap (for shapes)
 func (t *hty) funcCoq(heapT string) string {
+	if t.raw != "" {
+		return t.raw
+	}
 	var ps []string
 	if t.stateful {
 		ps = append(ps, t.stName)
@@ -171,6 +176,9 @@ func (t *hty) mentions(set map[string]bool) {
 	case "slice":
 		t.elem.mentions(set)
 	case "func":
+		for _, tp := range t.rawTps {
+			set[tp] = true
+		}
 		for _, p := range t.params {
 			p.mentions(set)
 		}
@@ -228,6 +236,7 @@ type hfunc struct {
 	fuel, pure bool
 	selfRec    bool // calls itself: a Fixpoint on fuel
 	ctor       bool // q := new(V); ...; return q: the fields of the new value struct are returned
+	retRecv    bool // the only result is the receiver itself (return c): not a result of the translation
 	tparams    []string
 }
 
@@ -794,6 +803,7 @@ type hctx struct {
 	cbState  map[*hvar]*hvar // stateful callback parameter -> its state
 	synth    map[ast.Node]*hvar
 	synthLim map[ast.Node]*hvar
+	selfVar   *hvar        // the function itself (at the smaller fuel) for the recursive calls inside its loops
 	ctorNamed *types.Named // a constructor: the instance of the value struct it makes
 	ctorRest  []ast.Stmt   // ... and its body after q := new(V)
 }
@@ -902,7 +912,7 @@ func (c *hctx) useStruct(s *hstruct, at ast.Node) {
 	}
 	for i, ft := range s.ftypes {
 		switch ft.k {
-		case "int", "bool", "elem", "str", "hptr", "struct", "unit":
+		case "int", "bool", "elem", "str", "hptr", "struct", "unit", "slice":
 			if ft.k == "struct" {
 				c.useStruct(ft.st, at)
 			}
@@ -985,6 +995,9 @@ func (c *hctx) function() {
 				if ft.k == "struct" {
 					c.useStruct(ft.st, fd)
 				}
+				if ft.k == "func" && len(ft.res) == 0 {
+					c.lostAt(fd, "receiver field %s: a function without results", f)
+				}
 				name := "recv"
 				if c.recvObj != nil {
 					name = c.recvObj.Name()
@@ -1065,17 +1078,25 @@ func (c *hctx) function() {
 		}
 	}
 	// ---- results
-	for i := 0; i < sig.Results().Len() && c.ctorNamed == nil; i++ {
+	fn.retRecv = c.returnsRecv()
+	for i := 0; i < sig.Results().Len() && c.ctorNamed == nil && !fn.retRecv; i++ {
 		rv := sig.Results().At(i)
 		t := c.mustType(rv.Type(), fd)
 		if t.k == "func" {
 			c.lostAt(fd, "function-typed result")
 		}
 		fn.results = append(fn.results, t)
-		if rv.Name() != "" && rv.Name() != "_" {
-			v := c.newVar(rv.Name(), t, "local")
+		if rv.Name() != "" {
+			// a named result (a blank one too: `(_ T, ok bool)` with a bare return hands back its zero value)
+			name := rv.Name()
+			if name == "_" {
+				name = "ret" + strconv.Itoa(i)
+			}
+			v := c.newVar(name, t, "local")
 			v.obj = rv
-			c.vars[rv] = v
+			if rv.Name() != "_" {
+				c.vars[rv] = v
+			}
 			c.retNames = append(c.retNames, v)
 		}
 	}
@@ -1097,6 +1118,9 @@ func (c *hctx) function() {
 		list = c.ctorRest
 	}
 	body := wrap(ctorPre, c.stmts(list, end))
+	if c.selfVar != nil {
+		body = tLet{c.selfVar.name, c.selfLambda(), body}
+	}
 	for i := len(c.retNames) - 1; i >= 0; i-- {
 		body = tLet{c.retNames[i].name + " : " + c.retNames[i].typ.coq(), c.zeroOf(c.retNames[i].typ, fd), body}
 	}
@@ -1416,4 +1440,120 @@ func (c *hctx) ctorPattern() {
 	}
 	c.recvObj = obj
 	c.ctorRest = fd.Body.List[1:]
+}
+
+// returnsRecv: a method on a value struct whose only result is a pointer to that struct and whose
+// every return returns the receiver (func (c *Cursor[T]) Next() *Cursor[T] { ...; return c }):
+// no Go result, the assigned fields are returned as usual
+func (c *hctx) returnsRecv() bool {
+	sig := c.fn.obj.Type().(*types.Signature)
+	if !c.fn.recvFields || c.fn.ctor || c.recvObj == nil || sig.Results().Len() != 1 {
+		return false
+	}
+	pt, ok := sig.Results().At(0).Type().(*types.Pointer)
+	if !ok || namedOf(pt) == nil || namedOf(sig.Recv().Type()) == nil || namedOf(pt).Origin() != namedOf(sig.Recv().Type()).Origin() {
+		return false
+	}
+	good, any := true, false
+	ast.Inspect(c.fn.decl.Body, func(n ast.Node) bool {
+		switch v := n.(type) {
+		case *ast.FuncLit:
+			return false
+		case *ast.ReturnStmt:
+			any = true
+			if len(v.Results) != 1 || !c.isRecvIdent(v.Results[0]) {
+				good = false
+			}
+		}
+		return true
+	})
+	return good && any
+}
+
+// selfSig: the Coq type of the function itself applied to fuel (and its zero values): what the
+// loops of a recursive function receive as self_
+func (c *hctx) selfLambda() string {
+	var xs []string
+	call := c.fn.name
+	i := 0
+	for _, f := range c.fn.fields {
+		_ = f
+		x := "a" + strconv.Itoa(i)
+		i++
+		xs = append(xs, x)
+		call += " " + x
+	}
+	for _, p := range c.fn.params {
+		if p.v == nil {
+			continue
+		}
+		x := "a" + strconv.Itoa(i)
+		i++
+		xs = append(xs, x)
+		call += " " + x
+		if p.st != nil {
+			x := "a" + strconv.Itoa(i)
+			i++
+			xs = append(xs, x)
+			call += " " + x
+		}
+	}
+	if c.fn.readsHeap {
+		xs = append(xs, "h_")
+		call += " h_"
+	}
+	for _, z := range c.fn.zeros {
+		call += " " + c.zeros[z].name
+	}
+	call += " fuel"
+	return "(fun " + strings.Join(xs, " ") + " => " + call + ")"
+}
+
+func (c *hctx) selfType() string {
+	var ps []string
+	for _, f := range c.fn.fields {
+		ps = append(ps, arrowArg(c.varType(c.fields[f])))
+	}
+	for _, p := range c.fn.params {
+		if p.v == nil {
+			continue
+		}
+		ps = append(ps, arrowArg(c.varType(p.v)))
+		if p.st != nil {
+			ps = append(ps, arrowArg(c.varType(p.st)))
+		}
+	}
+	if c.fn.readsHeap {
+		ps = append(ps, arrowArg(c.heapT))
+	}
+	ps = append(ps, "res "+paren(c.retType()))
+	return strings.Join(ps, " -> ")
+}
+
+// selfTps: the type variables the type of self_ mentions
+func (c *hctx) selfTps() []string {
+	set := map[string]bool{}
+	for _, f := range c.fn.fields {
+		c.fields[f].typ.mentions(set)
+	}
+	for _, p := range c.fn.params {
+		if p.v != nil {
+			p.v.typ.mentions(set)
+		}
+		if p.st != nil {
+			p.st.typ.mentions(set)
+		}
+	}
+	for _, a := range c.fn.cellArgs {
+		a.mentions(set)
+	}
+	for _, t := range c.fn.results {
+		t.mentions(set)
+	}
+	var ns []string
+	for n := range set {
+		ns = append(ns, n)
+	}
+	sort.Strings(ns)
+	return ns
 }
